@@ -16,18 +16,26 @@ Two groups:
   `ix`-th element, a mapped call over an empty collection is `dnull`, a call of
   a sub-pipeline denotes its body.
 
-The refinement "real resolver = den" is NOT proved here: it is established per
-run by trace checking (harness/c01.go ↔ Driver/C01.lean `C01.check`).
+The refinement "resolver = den" is PROVED for the model of the two-phase
+resolver (Martian/ResolverStatic.lean: static phase `staticProgram`, run-time
+phase `evalRT`) on plain programs (`resolver_refines_den_plain_partial`, last
+section); the model is tied to the code per run (static phase against the real
+`MakePipelineCallGraph`, run-time phase against the real resolver's delivered
+arguments), and for the shapes outside the proved fragment the refinement is
+still established per run by trace checking (harness/c01.go ↔ Driver/C01.lean
+`C01.check`).
 -/
 import Martian.Dataflow
 import Martian.Resolver
 import Proofs.Dataflow
 import Proofs.DataflowAlias
 import Proofs.ResolverForks
+import Proofs.ResolverStaticCheck
+import Proofs.ResolverStaticExample
 
 namespace Props.C01
 open Martian.Dataflow Martian.Resolver Martian.ResolverForks Proofs.Dataflow Proofs.DataflowAlias
-  Proofs.ResolverForks
+  Proofs.ResolverForks Martian.ResolverStatic Proofs.ResolverStatic
 
 /-! ## kernel laws -/
 
@@ -166,6 +174,50 @@ theorem split_merge_cancel_keys (st : StructTable) (ρ : Store) (f : ForkAssign)
     evalR st ρ (fset f c (.k s)) (.split c true (.merge c true e))
       = evalR st ρ (fset f c (.k s)) e :=
   split_merge_cancel_map st ρ f c e keys s hs hn hidx
+
+/-- `DisabledExp` in the resolved-expression language: `makeDisabledExp(d, v)` denotes
+"null if the control `d` is true, else the value `v`" for every fork assignment
+(a null value stays null, a constant control is decided statically, any other
+control wraps the value). -/
+theorem makeDisabled_sound (st : StructTable) (ρ : Store) (f : ForkAssign) (d v : RExp) :
+    evalR st ρ f (mkDisabled d v)
+      = if Martian.Dataflow.isTrue (evalR st ρ f d) then .null else evalR st ρ f v :=
+  evalR_mkDisabled st ρ f d v
+
+/-- nesting two wrappers on the same control changes nothing (the Go code's
+pointer-equality shortcut "already disabled on the same control, no need to nest"). -/
+theorem disabled_idem (st : StructTable) (ρ : Store) (f : ForkAssign) (d v : RExp) :
+    evalR st ρ f (.disabled d (.disabled d v)) = evalR st ρ f (.disabled d v) := by
+  simp only [evalR]
+  split <;> simp_all
+
+/-- `split` of a `merge` of a conditionally disabled value cancels like any other
+(`split_merge_cancel` is stated for every `RExp`, so also for `DisabledExp`), and the
+wrapper can be moved out of the pair. -/
+theorem split_merge_cancel_disabled (st : StructTable) (ρ : Store) (f : ForkAssign) (c : String)
+    (d e : RExp) (n k : Nat) (hk : k < n)
+    (hidx : ρ.idx c (fset f c (.i k)) = (List.range n).map .i) :
+    evalR st ρ (fset f c (.i k)) (.split c false (.merge c false (.disabled d e)))
+      = evalR st ρ (fset f c (.i k)) (.disabled d (.split c false (.merge c false e))) := by
+  rw [split_merge_cancel_arr st ρ f c (.disabled d e) n k hk hidx]
+  simp only [evalR]
+  split
+  · rfl
+  · have := split_merge_cancel_arr st ρ f c e n k hk hidx
+    simp only [evalR] at this
+    exact this.symm
+
+/-- non-vacuity of `bindingPath_sound_forks` on a `DisabledExp`: the projection is pushed
+inside the wrapper, and the wrapped expression is well shaped -/
+example :
+    wtR [("R", [⟨"r", ⟨"int", 0, 0⟩⟩])] ⟨"R", 0, 1⟩
+      (.disabled (.ref "FLAG" ⟨"FLAG", 0, 0⟩ ["on"])
+        (.merge "INNER" false (.struct [("r", .split "INNER" false (.ref "GEN" ⟨"GEN", 0, 0⟩ []))]))) = true
+    ∧ bpR "r" (.disabled (.ref "FLAG" ⟨"FLAG", 0, 0⟩ ["on"]) (.ref "GEN" ⟨"GEN", 0, 0⟩ ["o"]))
+      = .disabled (.ref "FLAG" ⟨"FLAG", 0, 0⟩ ["on"]) (.ref "GEN" ⟨"GEN", 0, 0⟩ ["o", "r"]) := by
+  constructor
+  · decide
+  · simp [bpR, mkDisabled]
 
 /-- non-vacuity: a merge over `INNER` of a struct whose member is a split reference,
 projected by that member (the A.1 shape after static resolution) is well shaped -/
@@ -400,5 +452,116 @@ example :
 example : (chunkMerge [("x", .atom "1"), ("ci", .null)] [("ci", .atom "5")]).lookup "ci" = some (.atom "5")
     ∧ (chunkMerge [("x", .atom "1"), ("ci", .null)] [("ci", .atom "5")]).lookup "x" = some (.atom "1") := by
   constructor <;> rfl
+
+/-! ## the two-phase resolver refines den (model of martian/syntax resolve_* + martian/core/resolve.go) -/
+
+/-- Narrowing composes across boundaries: narrowing a value to `t` (at a sub-pipeline
+boundary) and then to an assignable `t'` (at the stage parameter) is narrowing to `t'`.
+`NarrowFix`: the fuel of `narrow` is enough for the struct table (`narrowFix_acyclic`). -/
+theorem narrow_compose (st : StructTable) (hst : StructsOk st) (F : Nat) (hF : NarrowFix st F)
+    (t t' : Ty) (h : Sub st t t') (v : J) :
+    narrow st F t' (narrow st F t v) = narrow st F t' v :=
+  narrow_narrow hst hF h v
+
+/-- Projection commutes with narrowing: a member of a narrowed value is the narrowed member. -/
+theorem project_narrow_commute (st : StructTable) (F : Nat) (hF : NarrowFix st F) (t : Ty) (f : String)
+    (ft : Ty) (h : fieldTy st t.base f = some ft) (hm : t.mapDim ≠ 0 → ft.mapDim = 0) (v : J) :
+    proj1 t f (narrow st F t v) = narrow st F (projTy1 st t f) (proj1 t f v) :=
+  proj1_narrow hF t f ft h hm v
+
+/-- `Program.nfuel` is enough fuel for every acyclic struct table (decidable check). -/
+theorem narrowFix_acyclic (P : Program) (h : acyclicB P.table = true) : NarrowFix P.table P.nfuel :=
+  narrowFix_of_acyclicB P.table h
+
+/-- The static struct filter of literals (`Exp.filter`) is invisible to the type-directed
+run-time evaluation (`TopNode.resolve`), and keeps the expression well typed. -/
+theorem static_filter_invisible (st : StructTable) (hst : StructsOk st) (nf : Nat) (ρ : Store)
+    (f : ForkAssign) (r : RExp) (t : Ty) (h : HasTyR st t r) :
+    evalRT st nf ρ f t (filterR st t r) = evalRT st nf ρ f t r ∧ HasTyR st t (filterR st t r) :=
+  evalRT_filterR st hst nf ρ f r t h
+
+/-- Evaluating a resolved expression at run time at type `t` and narrowing the result to an
+assignable `t'` is evaluating it at `t'` (what lets a resolved expression cross a
+sub-pipeline boundary un-narrowed). -/
+theorem runtime_narrow_assignable (st : StructTable) (hst : StructsOk st) (F : Nat) (hF : NarrowFix st F)
+    (ρ : Store) (f : ForkAssign) (r : RExp) (t t' : Ty) (h : HasTyR st t r) (hs : Sub st t t') :
+    narrow st F t' (evalRT st F ρ f t r) = evalRT st F ρ f t' r ∧ HasTyR st t' r :=
+  narrow_evalRT st hst F hF ρ f r t t' h hs
+
+/-- Static projection along a whole path (`BindingPath`) commutes with the TYPED run-time
+evaluation, the types moving along (`bindingPath_sound_forks` is the untyped law). -/
+theorem static_projection_typed (st : StructTable) (hst : StructsOk st) (F : Nat) (hF : NarrowFix st F)
+    (ρ : Store) (f : ForkAssign) (path : List String) (r : RExp) (t : Ty) (h : HasTyR st t r)
+    (hp : PathOk st t path) :
+    projPath st t path (evalRT st F ρ f t r) = evalRT st F ρ f (pathTy st t path) (bpPath path r) ∧
+    HasTyR st (pathTy st t path) (bpPath path r) :=
+  projPath_evalRT st hst F hF ρ f path r t h hp
+
+/-- One binding: for a source expression typed in an environment whose entries are related
+to the static environment, den's (narrowed) value is the run-time evaluation of what
+`resolveExp` (= `resolveRefs`, then `filter`) produces. -/
+theorem resolveExp_refines_eval (st : StructTable) (hst : StructsOk st) (F : Nat) (hF : NarrowFix st F)
+    (ρ : Store) (env : Env) (self sib : RBMap) (hrel : EnvRel st F ρ env self sib) (e : Exp) (t : Ty)
+    (h : HasTy st env.selfTy env.callTy t e) :
+    narrow st F t (eval st env e) = evalRT st F ρ [] t (filterR st t (resolveRefs self sib e)) :=
+  (eval_resolveExp st hst F hF ρ env self sib hrel e t h).1
+
+/--
+PARTIAL (the refinement, for the plain fragment).  For every well-typed PLAIN program
+(`WellTyped`: no map call, no `disabled` modifier; every binding / return
+expression assignable to its parameter: literals of scalar type, array / typed-map
+/ struct literals member-wise, references and projections through nested
+sub-pipelines, struct narrowing `Sub`; aliases = call ids differ from callee names),
+every struct table on which `narrow` has enough fuel, every naming `nm` of the
+nodes and every store that holds the recorded outs under those names:
+the STATIC phase (`staticProgram`: the resolved inputs of every stage node and the
+resolved outputs of the top node) followed by the RUN-TIME phase (`evalRT`:
+type-directed evaluation over the recorded outs) yields exactly `den`: the same
+top-level outputs, the same stage instances in the same order, each with the same
+argument record.
+
+Full statement (NOT proved): the same for every compiling program, `twoPhase`
+extended by split / merge wrapping of map calls, fork matching and `DisabledExp`
+wrapping, equality up to `dnull` ~ null / empty.  Excluded shapes: map calls
+(statically or dynamically sized), `disabled`, a struct bound to an untyped `map`
+parameter (den narrows at the boundary type, the code does not), ill-typed
+programs.  For those the refinement is checked per run against the real code.
+-/
+theorem resolver_refines_den_plain_partial (P : Program) (nm : List String → String) (O : Oracle)
+    (ρ : Store) (hw : WellTyped P) (hfix : NarrowFix P.table P.nfuel) (hρ : StoreOf nm O ρ) :
+    den P O = twoPhase P nm ρ :=
+  twoPhase_eq_den_F P hw P.nfuel hfix nm O ρ hρ
+
+/-- The same with DECIDABLE hypotheses (the driver evaluates them on every generated
+program: `C01.static`): the checks `wellTypedB` and `acyclicB` pass. -/
+theorem resolver_refines_den_plain_checked (P : Program) (nm : List String → String) (O : Oracle)
+    (ρ : Store) (h1 : wellTypedB P = true) (h2 : acyclicB P.table = true) (hρ : StoreOf nm O ρ) :
+    den P O = twoPhase P nm ρ :=
+  twoPhase_eq_den_F P (wellTypedB_sound P h1) P.nfuel (narrowFix_of_acyclicB P.table h2) nm O ρ hρ
+
+/-- non-vacuity: a nested, aliased program with struct narrowing WIDE → PAIR across the
+pipeline boundary, projections through the boundary, struct / array literals mixing
+references and constants passes both checks -/
+example : wellTypedB exPlain = true ∧ acyclicB exPlain.table = true := by decide
+
+/-- … its store holds the oracle's outs under the nodes' fully qualified ids … -/
+example : ∀ f, exPlainStore.outs (exNm ["TOP", "GEN"]) f = (exPlainOracle ⟨["TOP", "GEN"], f⟩).getD .null :=
+  fun _ => rfl
+
+/-- … and the narrowing is real: GEN's recorded `w` has three members and an undeclared
+output, the instance `TOP.INNER.USE` receives the two members of PAIR -/
+example :
+    ((twoPhase exPlain exNm exPlainStore).2.find? fun i => i.key == ⟨["TOP", "INNER", "USE"], []⟩).map
+      (fun i => (i.args.field "p").matches (.obj [("a", .atom "1"), ("b", .atom "\"x\"")])) = some true := by
+  decide
+
+/-- hypotheses of `narrow_compose` / `runtime_narrow_assignable`: WIDE is assignable to PAIR -/
+example : Sub exPlain.table ⟨"WIDE", 0, 1⟩ ⟨"PAIR", 0, 1⟩ := subB_sound _ 3 _ _ (by decide)
+
+example : HasTyR exPlain.table ⟨"PAIR", 0, 0⟩ (.ref "TOP.GEN" ⟨"GEN", 0, 0⟩ ["w"]) := by
+  simp only [HasTyR]
+  exact subB_sound _ 3 _ _ (by decide)
+
+example : PathOk exPlain.table ⟨"GEN", 0, 0⟩ ["ws", "b"] := pathOkB_sound _ _ _ (by decide)
 
 end Props.C01
